@@ -4,6 +4,7 @@
 //   vh <property> --tier T --replay-kind KIND --replay-idx I --replay-seed S
 //   vh selftest
 
+mod bridge;
 mod ctx;
 mod mon;
 mod oracle;
